@@ -74,6 +74,8 @@ Resume(e) ==
              THEN <<VV(IF owedElse THEN "injected_into_wrong_thread" ELSE "injected_twice", e.ev, d, "an entry owed to this thread", "none",
                        Get2(lastinj, <<t, d>>) \o "_then_" \o e.ev)>>
              ELSE <<>>)
+       \o (IF suppress /\ h \in Transparent /\ Get(reported, <<t, h>>) < Get(seen, <<t, h>>)
+             THEN <<VV("transparent_signal_unreported", e.ev, h, "reported", "cancelled without a report", Get2(foundby, <<t, h>>))>> ELSE <<>>)
        \o (IF ~dz /\ d \in Transparent /\ honoured THEN <<V("transparent_signal_forwarded", e.ev, d, 0, 1)>> ELSE <<>>)
        \o (IF needAnn /\ Get(announced, <<t, d>>) = 0
              THEN <<VV("delivered_unreported", e.ev, d, "reported before delivery", "no report", Get2(foundby, <<t, d>>))>> ELSE <<>>)
@@ -107,11 +109,12 @@ Reports(rs, i, rep, ann, acc) ==     \* returns <<reported', announced', viol-su
            holds == (Kind(t) = "signal" /\ Held(t) = s) \/ Get(owed, <<t, s>>) > 0
            other == \E x \in DOMAIN stopk : x # t /\ stopk[x] = <<"signal", s>>
            nrep == Get(rep, <<t, s>>) + 1
-           v == (IF s \in Quiet THEN <<V("quiet_signal_reported", "prompt", s, "no stop", t)>> ELSE <<>>)
+           v == (IF s \in Quiet THEN <<VV("quiet_signal_reported", "prompt", s, "no stop", t, Get2(foundby, <<t, s>>))>> ELSE <<>>)
                 \o (IF s \notin Quiet /\ ~holds
                       THEN <<V(IF other THEN "report_names_wrong_thread" ELSE "spurious_report", "prompt", s, "the receiving thread", t)>> ELSE <<>>)
                 \o (IF s \notin Quiet /\ holds /\ nrep > Get(seen, <<t, s>>)
-                      THEN <<V("duplicate_report", "prompt", s, Get(seen, <<t, s>>), nrep)>> ELSE <<>>)
+                      THEN <<VV("duplicate_report", "prompt", s, Get(seen, <<t, s>>), nrep,
+                                IF Kind(t) = "signal" /\ Held(t) = s THEN "same_delivery_stop" ELSE "suppressed_entry")>> ELSE <<>>)
        IN Reports(rs, i + 1, Put(rep, <<t, s>>, nrep),
                   IF nrep <= Get(seen, <<t, s>>) THEN Put(ann, <<t, s>>, Get(ann, <<t, s>>) + 1) ELSE ann, acc \o v)
 
@@ -152,7 +155,10 @@ End(e) ==
           \o (LET N == {s \in SigNames \ Quiet : prom[s] < sent[s] /\ s \notin amb} IN
               IF N # {} THEN <<V("signal_not_reported", "exit", CHOOSE s \in N : TRUE, sent, prom)>> ELSE <<>>)
           \o (LET O == {x \in DOMAIN owed : owed[x] > 0} IN
-              IF O # {} THEN <<VV("suppressed_never_injected", "exit", (CHOOSE x \in O : TRUE)[2], 0, owed, "")>> ELSE <<>>)
+              IF O # {} THEN LET x == CHOOSE y \in O : TRUE IN
+                             <<VV("suppressed_never_injected", "exit", x[2], 0, owed,
+                                  IF Cardinality({y \in DOMAIN seen : y[1] = x[1]}) > 1 \/ Get(seen, x) > 1
+                                    THEN "thread_had_second_entry" ELSE "only_entry")>> ELSE <<>>)
           \o (LET M == {s \in SigNames : inj[s] # f[s] /\ s \notin Transparent} IN
               IF M # {} THEN <<V("model_accounting_ne_counters", "exit", CHOOSE s \in M : TRUE, inj, f)>> ELSE <<>>)
           ELSE <<>>)
